@@ -290,9 +290,15 @@ Truth(e, env) == IF WellTyped(e) THEN TruthR(e, env) ELSE Err
 
 \* the equivalent function forms: == eq, != ne, && and, || or, ! not  (< <= > >= have none)
 RECURSIVE HasFun(_), ToFun(_), ToCall(_)
-\* a string literal as (part of) a function argument: every part in double quotes
-LitArg(a) == IF Len(a) = 0 THEN << <<"dq", <<>> >> >>
-             ELSE [i \in 1..Len(a) |-> IF a[i][1] = "dq" THEN a[i] ELSE <<"dq", <<a[i]>> >>]
+\* a string literal as (part of) a function argument: in double quotes (double quoted
+\* parts of the literal stay as they are, the runs between them get their own quotes)
+RECURSIVE LitRuns(_, _)
+LitRuns(a, acc) ==
+  LET flush == IF Len(acc) = 0 THEN <<>> ELSE << <<"dq", acc>> >>
+  IN IF Len(a) = 0 THEN flush
+     ELSE IF a[1][1] = "dq" THEN flush \o <<a[1]>> \o LitRuns(Tail(a), <<>>)
+     ELSE LitRuns(Tail(a), Append(acc, a[1]))
+LitArg(a) == IF Len(a) = 0 THEN << <<"dq", <<>> >> >> ELSE LitRuns(a, <<>>)
 HasFun(e) ==
   CASE e[1] \in {"lit", "sq"} -> TRUE
     [] e[1] = "call" -> \A i \in 1..Len(e[3]) : HasFun(e[3][i])
@@ -456,9 +462,9 @@ ProtEnv == [v |-> [n \in {"A", "B"} |-> IF n = "A" THEN <<"set", Chars("a")>> EL
 (* generation of !expr ASTs, bounded by cost (leaves, calls, !, parentheses) *)
 
 EL(a) == <<"lit", a>>
-ELeaf1 == {EL(<<>>), EL(<<L("a")>>), EL(<< <<"var", "A">> >>), EL(<<L("b")>>), <<"sq", Chars("0")>>}
+ELeaf1 == {EL(<<>>), EL(<<L("a")>>), EL(<< <<"var", "A">> >>), <<"sq", Chars("0")>>}
 ELeaf2 == {EL(<< <<"bare", "A">> >>), EL(<< <<"esc", "$">>, L("A") >>), EL(<< <<"dq", <<L("a")>> >> >>),
-           EL(<<L("true")>>), EL(<<L("False")>>), EL(<<L(" 0 ")>>), EL(<<NoFun>>),
+           EL(<<L("b")>>), EL(<<L("False")>>), EL(<<L(" 0 ")>>), EL(<<NoFun>>),
            EL(<< <<"def", "A", TRUE, <<L("a")>> >> >>),
            EL(<< <<"fun", FEq, << << <<"bare", "A">> >>, <<L("a")>> >> >> >>),
            EL(<< <<"esc", "\\">>, <<"esc", "\"">> >>),
@@ -470,6 +476,8 @@ ECallSpecs == {<<FEq, <<"s", "s">> >>, <<FNe, <<"s", "s">> >>, <<FNot, <<"s">> >
                <<FAnd, <<"s", "s">> >>, <<FStrip, <<"s">> >>, <<FIte, <<"s", "s", "s">> >>,
                <<FMatch, <<"s", "p">> >>, <<FTool, <<"tool">> >>, <<FEq, <<"s">> >>}
 CmpOps == {"==", "!=", "<", "<=", ">", ">="}
+\* all six operators on all pairs of small operands; with larger operands one equality and one order
+CmpOpsAt(k) == IF k <= 2 THEN CmpOps ELSE {"==", "<="}
 
 RECURSIVE StrE(_), EArgTuples(_, _), BoolE(_)
 EArgSet(kind, j) ==
@@ -489,7 +497,7 @@ WellE(k) == StrE(k) \cup BoolE(k)
 \* boolean typed, well typed expressions
 BoolE(k) ==
   IF k < 2 THEN {}
-  ELSE UNION {{<<"cmp", op, l, r>> : op \in CmpOps, l \in StrP(i), r \in StrP(k - i)} : i \in 1..(k - 1)}
+  ELSE UNION {{<<"cmp", op, l, r>> : op \in CmpOpsAt(k), l \in StrP(i), r \in StrP(k - i)} : i \in 1..(k - 1)}
        \cup {<<"not", e>> : e \in WellE(k - 1)}
        \cup {<<"par", e>> : e \in BoolE(k - 1)}
        \cup UNION {{<<o, l, r>> : o \in {"and", "or"}, l \in WellE(i), r \in WellE(k - i)} : i \in 1..(k - 1)}
@@ -582,7 +590,7 @@ ExprChunk(top, k, i) ==
     [] top = "not" -> IF i = 1 /\ k >= 2 THEN {<<"not", e>> : e \in WellE(k - 1)} ELSE {}
     [] top = "par" -> IF i = 1 /\ k >= 3 THEN {<<"par", e>> : e \in BoolE(k - 1)} ELSE {}
     [] top \in {"and", "or"} -> IF i < k THEN {<<top, l, r>> : l \in WellE(i), r \in WellE(k - i)} ELSE {}
-    [] top \in CmpOps -> IF i < k THEN {<<"cmp", top, l, r>> : l \in StrP(i), r \in StrP(k - i)} ELSE {}
+    [] top \in CmpOps -> IF i < k /\ top \in CmpOpsAt(k) THEN {<<"cmp", top, l, r>> : l \in StrP(i), r \in StrP(k - i)} ELSE {}
 CaseExpr == /\ st[1] = "ex"
             /\ \E e \in ExprChunk(st[2], st[3], st[4]) : \E env \in EEnvs(e) : st' = ECase("expr", e, env)
 
